@@ -208,6 +208,16 @@ class RedfieldRelaxationTensor(RelaxationTensor):
             else:
                 S1 = inv
 
+            # the representation in a complex basis is complex: real storage
+            # would silently drop its imaginary part
+            if numpy.iscomplexobj(SS):
+                if not numpy.iscomplexobj(self._Km):
+                    self._Km = self._Km.astype(numpy.complex128)
+                if not numpy.iscomplexobj(self._Lm):
+                    self._Lm = self._Lm.astype(numpy.complex128)
+                if not numpy.iscomplexobj(self._Ld):
+                    self._Ld = self._Ld.astype(numpy.complex128)
+
             for m in range(self._Lm.shape[0]):
                 self._Lm[m,:,:] = numpy.dot(S1,numpy.dot(self._Lm[m,:,:], SS))  
                 self._Ld[m,:,:] = numpy.dot(S1,numpy.dot(self._Ld[m,:,:], SS))
